@@ -27,6 +27,34 @@ class FragmentTuple(object):
     __getitem__ = None
 
 
+_CUT_TABS = {}
+_CUT_RES = {}
+_WATOM = {}
+
+
+def _word_at(letters, j, word):
+    """raw z3 condition (or python bool): word occupies letters[j:j+len(word)]"""
+    import z3
+
+    cs = []
+    for q, ch in enumerate(word):
+        l = letters[j + q]
+        code = code_of(ch)
+        if isinstance(l, int):
+            if l != code:
+                return False
+            continue
+        k = (l.e.get_id(), code)
+        a = _WATOM.get(k)
+        if a is None:
+            a = (l.e == code, l.e)
+            _WATOM[k] = a
+        cs.append(a[0])
+    if not cs:
+        return True
+    return z3.And(cs) if len(cs) > 1 else cs[0]
+
+
 class EnzymeWrap(object):
     _cache = {}
 
@@ -55,9 +83,16 @@ class EnzymeWrap(object):
     def __hash__(self):
         return hash(self.real)
 
-    def _cuts(self, data, linear):
-        """-> list of (condition, watson_cut_position_1based) for every potential site, following
-        NonPalindromic/Palindromic._search with OneCut._modify (ambiguous sites unsupported)"""
+    def _count_cuts(self, seq, linear):
+        """number of cuts Bio's search()+_drop() keeps on a linear symbolic sequence, following
+        NonPalindromic/Palindromic._search, OneCut._modify/_rev_modify and AbstractCut._drop:
+        a site found at 1-based location s cuts the top strand at w = s + fst5 (forward site) or
+        w = s - fst3 (reverse site); the cut is kept iff 1 < w <= length and 1 < w - ovhg <= length"""
+        data = seq._d if isinstance(seq, Seq) else seq
+        if isinstance(data, str):
+            return None
+        if not linear:
+            raise Unsupported("circular symbolic digest")
         enz = self.real
         site = enz.site
         if any(c not in "ACGT" for c in site):
@@ -65,62 +100,64 @@ class EnzymeWrap(object):
         if not enz.cut_once():
             raise Unsupported("symbolic digest with a non single-cut enzyme (%s)" % enz)
         import Bio.Seq
+        import z3
+        from ..core import tz, mkint
 
         rsite = str(Bio.Seq.Seq(site).reverse_complement())
         size = len(site)
-        n = data.n
         M = data.maxlen
-        out = []
-
-        # FormattedSeq upper-cases the data and prepends a space: python index j <-> position j+1
         hint = data.hint
-
-        def up(j):
-            return supper_code(data.get(j), hint)
-
-        def site_at(word, j):
-            # site occupying positions j..j+size-1 (python indices), wrapping when circular
-            cs = []
-            for q, ch in enumerate(word):
-                p = j + q
-                if linear:
-                    cs.append(Eq(up(p), code_of(ch)) if p < M else False)
-                    cs.append(p < n)
-                else:
-                    # data + data[1:size]: wrap of at most size-1 letters
-                    if isinstance(n, int):
-                        cs.append(Eq(up(p % n), code_of(ch)) if n > 0 else False)
-                        if p >= n and not (q >= 1 and p - n < size - 1):
-                            cs.append(False)
-                    else:
-                        raise Unsupported("circular symbolic digest needs a concrete length")
-            return And(cs)
-
-        for j in range(M):
-            start = j + 1  # 1-based location of the match
-            c_f = And(j < n, site_at(site, j))
-            if c_f is not False:
-                out.append((c_f, start + enz.fst5))
-            if rsite != site:
-                c_r = And(j < n, site_at(rsite, j))
-                if c_r is not False:
-                    out.append((c_r, start - enz.fst3))
-        return out
-
-    def _count_cuts(self, seq, linear):
-        data = seq._d if isinstance(seq, Seq) else seq
-        if isinstance(data, str):
-            return None
-        if not linear:
-            raise Unsupported("circular symbolic digest")
-        enz = self.real
+        letters = [supper_code(data.get(j), hint) for j in range(M)]
+        lkey = tuple(("c", l) if isinstance(l, int) else ("z", l.e.get_id()) for l in letters)
+        ck = (str(enz), lkey)
+        tab = _CUT_TABS.get(ck)
+        if tab is None:
+            words = [(site, enz.fst5)] + ([(rsite, -enz.fst3)] if rsite != site else [])
+            tab = []  # (condition on letters, minimal length needed) per potential site
+            for j in range(M - size + 1):
+                for word, delta in words:
+                    w = (j + 1) + delta
+                    c = w - enz.ovhg
+                    if not (1 < w and 1 < c):
+                        continue
+                    cond = _word_at(letters, j, word)
+                    if cond is False:
+                        continue
+                    tab.append((cond, max(w, c, j + size)))
+            _CUT_TABS[ck] = (tab, letters)
+        else:
+            tab = tab[0]
         length = data.n
-        cuts = self._cuts(data, linear)
-        kept = []
-        for cond, w in cuts:
-            c = w - enz.ovhg
-            kept.append(And(cond, 1 < w, w <= length, 1 < c, c <= length))
-        return Sum([If(k, 1, 0) for k in kept])
+        rk = (ck, length if isinstance(length, int) else ("z", length.e.get_id()))
+        hit = _CUT_RES.get(rk)
+        if hit is not None:
+            return hit[0]
+        res = self._sum_cuts(tab, length)
+        _CUT_RES[rk] = (res, length)
+        return res
+
+    @staticmethod
+    def _sum_cuts(tab, length):
+        import z3
+        from ..core import mkint
+
+        terms = []
+        conc = 0
+        one, zero = z3.IntVal(1), z3.IntVal(0)
+        for cond, need in tab:
+            if isinstance(length, int):
+                if need > length:
+                    continue
+                g = cond
+            else:
+                g = cond & (length.e >= need) if cond is not True else (length.e >= need)
+            if g is True:
+                conc += 1
+            else:
+                terms.append(z3.If(g, one, zero))
+        if not terms:
+            return conc
+        return mkint(z3.Sum(terms) + conc)
 
     def catalyse(self, dna, linear=True):
         cnt = self._count_cuts(dna, linear)
